@@ -27,9 +27,9 @@ def run_harnesses(pid, cfg, outdir, tier, seed, replay=None):
     res = []
     for h in cfg.get("harness", []):
         rc, out, dt = vlib.run_go(h["pkg"], h["test"], outdir, tier, seed, timeout=h.get("timeout", 1500),
-                                  replay=replay, race=h.get("race", False) and tier == "thorough")
-        res.append({"pkg": h["pkg"], "test": h["test"], "rc": rc, "wall_s": round(dt, 2),
-                    "log_tail": out[-4000:] if rc != 0 else ""})
+                                  replay=replay, race=h.get("race", False) and (tier == "thorough" or h.get("race_quick", False)))
+        res.append({"pkg": h["pkg"], "test": h["test"], "rc": rc, "wall_s": round(dt, 2), "race": h.get("race", False),
+                    "log_tail": out[-4000:] if rc != 0 else "", "log_full": out[-200000:] if rc != 0 else ""})
     return res
 
 
@@ -114,10 +114,24 @@ def run_property(pid, cfg, tier, seed, replay):
             broken.append({"kind": "correspondence", "what": "correspondence checkers %s do not build" % cfg["corr"],
                            "detail": log[-3000:]})
     hs = run_harnesses(pid, cfg, outdir, tier, seed)
+    crash_violations = []
     for h in hs:
         if h["rc"] != 0:
-            broken.append({"kind": "correspondence", "what": "harness %s %s failed to build or run against the current tree" % (h["pkg"], h["test"]),
-                           "detail": h["log_tail"]})
+            # for properties about the robustness of the process itself, the death of the harness process inside the
+            # code under test IS the failing history: report it with the runtime's own message as the replay
+            sig = None
+            for needle, clause in cfg.get("crash_signatures", []):
+                if needle in (h.get("log_full") or h["log_tail"]):
+                    sig = (needle, clause)
+                    break
+            if sig:
+                log = h.get("log_full") or h["log_tail"]
+                at = log.find(sig[0])
+                crash_violations.append({"clause": sig[1], "input": {"rerun_harness_test": h["test"], "package": h["pkg"], "race_detector": bool(h.get("race"))},
+                                         "detail": log[max(0, at - 200):at + 1800], "harness": h["test"]})
+            else:
+                broken.append({"kind": "correspondence", "what": "harness %s %s failed to build or run against the current tree" % (h["pkg"], h["test"]),
+                               "detail": h["log_tail"]})
     metas = vlib.load_metas(outdir)
     case_results = vlib.run_cases(outdir) if corr_ok else []
     mismatches = []
@@ -138,7 +152,7 @@ def run_property(pid, cfg, tier, seed, replay):
                            "detail": json.dumps(inp)[:1500]})
 
     # ---------------- 4. implementation-side monitors
-    vs = collect_violations(metas)
+    vs = collect_violations(metas) + crash_violations
     known, unknown = split_known(pid, vs)
 
     # ---------------- 5. broken proof/tie => search for a failing input
